@@ -477,6 +477,46 @@ def run(ctx):
         else:
             ctx.ok("c02.id", key, "id from %s" % sorted({repr(s) for s in srcs}), loc)
 
+    # "so the model checker reports nothing": the checker's only warning that is not about a link - the thermal-bridge length - must not
+    # fire for what the converter writes when a bridge has no length (l = 0.0) or a positive one
+    from .c15 import analyse_checker
+    chk = prog.fn_by_path("bemodel::checks::check")
+    _, cres = analyse_checker(ctx, chk, [])
+    bl = [(c, loc_) for (canon, idn, loc_, recv, sc_) in cres for c in canon if c[0] == "cmp" and c[2] and c[2].endswith("thermal_bridges[].l")]
+    if len(bl) == 1:
+        (tag, op, leaf, const, val), loc_ = bl[0]
+        import operator
+        f_ = {"Lt": operator.lt, "Le": operator.le, "Gt": operator.gt, "Ge": operator.ge}[op]
+        fires_at_zero = f_(0.0, float(const)) == bool(val)
+        fires_at_one = f_(1.0, float(const)) == bool(val)
+        if fires_at_zero or fires_at_one:
+            ctx.violation("c02.checker", "c02.checker|bridge-length", "the checker warns about a thermal bridge of length %s (its test is `l %s %s`): the converter writes l = 0.0 for a bridge "
+                          "without length, so a valid converted model gets warnings" % ("0" if fires_at_zero else "1", {"Lt": "<", "Le": "<=", "Gt": ">", "Ge": ">="}[op], const), loc_)
+        else:
+            ctx.ok("c02.checker", "c02.checker|bridge-length", "the bridge-length warning does not fire for l = 0 or l > 0 (what conversion produces)", loc_)
+    # ids that come out of a de-duplicated list: Vec::dedup removes *adjacent* duplicates only, so the list must have been sorted first
+    for f in sorted(prog.fns.values(), key=lambda f: f.id):
+        if not f.path.startswith("bemodel::convert::from_ctehexml::") or f.root != f.id:
+            continue
+        body = f.body
+        eb_ = None
+        for b, t in body.calls():
+            if short_callee(callee_name(t) or "") in ("dedup", "dedup_by", "dedup_by_key") and t["args"]:
+                from ..exprs import ExprBuilder
+                eb_ = eb_ or ExprBuilder(body)
+                recv = strip(eb_.operand(t["args"][0]))
+                key = "c02.unique|dedup|%s|%s" % (f.path.split("::")[-1], leaf_name(recv) or show(recv)[:30])
+                sorted_before = False
+                for b2, t2 in body.calls():
+                    if short_callee(callee_name(t2) or "") in ("sort", "sort_unstable", "sort_by", "sort_by_key", "sort_unstable_by", "sort_unstable_by_key") and t2["args"]:
+                        r2 = strip(eb_.operand(t2["args"][0]))
+                        if leaf_name(r2) == leaf_name(recv) and body.dominates(b2, b):
+                            sorted_before = True
+                if sorted_before:
+                    ctx.ok("c02.unique", key, "dedup() runs on a list that was sorted just before: every duplicate is removed", f.loc(t.get("ln")))
+                else:
+                    ctx.violation("c02.unique", key, "dedup() on a list that is not sorted first: only adjacent duplicates are removed, so an element used again later in the file is "
+                                  "converted twice (two elements with the same id)", f.loc(t.get("ln")))
     # D3 parser validations
     check_parser_validations(ctx, prog)
     # D4 order
